@@ -27,6 +27,10 @@ type Mutant struct {
 	Note     string `json:"note,omitempty"`
 	More     []Edit `json:"more,omitempty"`  // further replacements of the same mutant (e.g. an import)
 	Patch    string `json:"patch,omitempty"` // unified diff (path relative to the verification directory) applied instead of old/new
+	// Superseded: a later fix: commit made this edit harmless for this property
+	// on the current tree (re-confirmed: its demonstration passes with it); it is
+	// listed with the reason and not replayed for this property.
+	Superseded string `json:"superseded,omitempty"`
 }
 
 // Edit is an additional replacement.
@@ -40,7 +44,7 @@ var verifDirForMutants = "/verif"
 
 type MutantResult struct {
 	ID      string `json:"id"`
-	Status  string `json:"status"` // detected | missed | skipped | not-compiling | silent(ok) | false-alarm
+	Status  string `json:"status"` // detected | missed | skipped | superseded | not-compiling | silent(ok) | false-alarm
 	Rule    string `json:"expect_rule,omitempty"`
 	Detail  string `json:"detail,omitempty"`
 	Benign  bool   `json:"benign,omitempty"`
@@ -117,6 +121,10 @@ func runMutants(self, repo, dir, prop string) []MutantResult {
 
 func runOne(self, repo string, m Mutant) MutantResult {
 	r := MutantResult{ID: m.ID, Rule: m.Rule, Benign: m.Benign, Note: m.Note}
+	if m.Superseded != "" {
+		r.Status, r.Detail = "superseded", m.Superseded
+		return r
+	}
 	var src []byte
 	if m.Patch == "" {
 		var err error
